@@ -62,10 +62,6 @@ MapOK(e) ==
 \* far larger than MC_AlnWriter's shapes.  The code-shaped writer of RefMap.tla is stepped alongside:
 \* its output and the declarative ExpectOut must both equal the recorded sequence (verdict); the
 \* recorded scalars after every call are compared with the model's (reported by AlnDrift, not a verdict).
-RECURSIVE WRun(_, _, _, _, _, _)
-WRun(w, contigs, k, writes, i, mask) ==
-   IF i > Len(writes) THEN w
-   ELSE WRun(WWrite(w, contigs, k, writes[i][1], writes[i][2], writes[i][3], mask), contigs, k, writes, i + 1, mask)
 AlnOK(e) ==
    LET c == e.ctx
        reps == ToSet(c.repeats)
